@@ -12,7 +12,7 @@
 import json, os, subprocess, sys, shutil, time, re
 
 VERIF = os.path.dirname(os.path.abspath(__file__))
-REPO = "/repo"
+REPO = os.environ.get("VERIF_REPO", "/repo")
 
 
 def sh(cmd, cwd=None, env=None, timeout=3600):
